@@ -92,6 +92,7 @@ func (m Messages) Integrate(values RawValues, prefix string) RawValues {
 	}
 	sort.Strings(sorted)
 
+	typed := prefix // the `_` entry must extend what was typed, including a partially typed ERR
 	switch {
 	case strings.HasSuffix(prefix, "ERR"):
 		prefix = strings.TrimSuffix(prefix, "ERR")
@@ -127,7 +128,7 @@ func (m Messages) Integrate(values RawValues, prefix string) RawValues {
 
 	if len(values) == 1 {
 		values = append(values, RawValue{
-			Value:       prefix + "_",
+			Value:       typed + "_",
 			Display:     "_",
 			Description: "",
 			Style:       style.Default,
